@@ -7,7 +7,7 @@ from typing import List
 
 from vf.cond import cond
 
-from .common import DictLoader, Environment, LiquidError, concrete_int
+from .common import DictLoader, Environment, LiquidError, concrete_int, drive, untraced
 
 from liquid2 import RenderContext  # noqa: E402
 from liquid2.exceptions import DisabledTagError  # noqa: E402
@@ -247,3 +247,35 @@ for _t in BLOCK_T + ERR_T:
 def twin_block(x: int) -> bool:
     out = TWIN_T.render(x=x)
     return out == str(x)
+
+
+# ---- the variable bound by `render ... with/for` reaches the partial in every calling situation -------
+BIND_PARTS = {"x": "[{{ x }}{{ v }}{{ k }}]"}
+BIND_ENV = Environment(loader=DictLoader(dict(BIND_PARTS)))
+BIND_G_ENV = Environment(loader=DictLoader(dict(BIND_PARTS)), globals={"eg": 1})
+
+
+@cond(
+    pre=["True"],
+    timeout=120,
+    covers="`render 'x' with e` / `for e` (with and without `as v`, with and without keyword arguments) binds the value in the partial whether or not the caller was given any data or globals at all (no render arguments, no template globals, no environment globals), sync and async",
+    bounds="2 binding kinds x alias x keyword argument x caller data present/absent x environment globals present/absent x sync/async (solver-chosen structure, concrete execution)",
+    grid=lambda: [(f, a, k, d, g, s) for f in (False, True) for a in (False, True) for k in (False, True) for d in (False, True) for g in (False, True) for s in (False, True)],
+)
+def s_render_binding(loop: bool, alias: bool, kw: bool, data: bool, eglobals: bool, is_async: bool) -> bool:
+    loop, alias, kw, data, eglobals, is_async = (bool(b) for b in (loop, alias, kw, data, eglobals, is_async))
+
+    def run() -> bool:
+        src = "{% assign y = 5 %}{% render 'x' " + ("for (1..2)" if loop else "with y") + (" as v" if alias else "") + (", k: 7" if kw else "") + " %}"
+        env = BIND_G_ENV if eglobals else BIND_ENV
+        t = env.from_string(src)
+        args = {"unrelated": 1} if data else {}
+        try:
+            out = drive(t.render_async(**args)) if is_async else t.render(**args)
+        except LiquidError:
+            return False
+        vals = ["1", "2"] if loop else ["5"]
+        k = "7" if kw else ""
+        return out == "".join("[" + v + k + "]" for v in vals)
+
+    return untraced(run)
